@@ -408,6 +408,28 @@ def seam_triple(r, sp):
     return a, b, c
 
 
+def spacetime_boundary_triple(r, sp):
+    """SpaceTimeStateSpace over R^n: pairs whose time difference equals deltaSpace / vMax up to a relative offset of
+    0, ±1e-16 … ±2e-7 — on either side of, and inside, the float-epsilon slack of the reachability test
+    (`deltaSpace / vMax_ > deltaTime + eps_` => +inf)."""
+    vmax, tb = sp[1], sp[3]
+    n = len(sp[4][1])
+
+    def follow(a):
+        b = gen_state(r, sp, "uniform")
+        ds = math.sqrt(sum((a[j] - b[j]) ** 2 for j in range(n)))
+        off = r.choice([0.0, 1e-16, -1e-16, 1e-9, -1e-9, 5e-8, -5e-8, 1.1e-7, -1.1e-7, 1.3e-7, -1.3e-7, 2e-7, -2e-7])
+        sign = r.choice([1.0, -1.0])
+        t = a[n] + sign * (ds / vmax) * (1.0 + off) + r.choice([0.0, 0.0, 1e-7, -1e-7, 1.19e-7, -1.19e-7, 1.2e-7, -1.2e-7])
+        if tb is not None:
+            t = min(tb[1], max(tb[0], t))
+        b[n] = t
+        return b
+    a = gen_state(r, sp, "uniform")
+    b = follow(a)
+    return (a, b, follow(b))
+
+
 TRIPLE_MODES = ["uniform", "uniform", "uniform", "mixed", "bound", "coincident", "ulp", "small", "small", "neg", "seam", "seam",
                 "nonunit"]
 # quaternion scale factors that keep |norm - 1| < MAX_QUATERNION_NORM_ERROR = 1e-9 (satisfiesBounds) — the first three
@@ -448,6 +470,8 @@ def gen_triple(r, sp, mode):
         b = perturb(r, sp, a, "neg")
         c = gen_state(r, sp, r.choice(["uniform", "bound"]))
         return (a, b, c)
+    if mode == "seam" and sp[0] == "spacetime" and sp[4][0] == "rv":
+        return spacetime_boundary_triple(r, sp)
     if mode == "seam":
         return seam_triple(r, sp)
     if mode == "nonunit":
@@ -559,6 +583,7 @@ def shipped_spaces(r):
     box3 = ("rv", [-2.0, -2.0, -2.0], [2.0, 2.0, 2.0])
     out += [("empty",),
             ("spacetime", 1.0, 0.5, None, ("rv", [0.0, 0.0], [1.0, 1.0])),
+            ("spacetime", 0.5, 0.25, (0.0, 8.0), ("rv", [-1.0], [1.0])),
             ("spacetime", 0.5, 0.3, (0.0, 10.0), ("se2", [0.0, 0.0], [1.0, 1.0])),
             ("spacetime", 2.0, 0.9, (0.0, 1.0), ("so3",)),
             ("spacetime", 1.0, 0.5, (0.0, 5.0), ("cmp", [(1.0, ("so2",)), (2.0, ("rv", [0.0], [3.0]))])),
@@ -692,7 +717,7 @@ def laws(sp, cl, ext, tr, res, count=None, scale=1.0):
     if not E[(0, 0)]:
         out.append(("self", (0, 0), 0.0, "a state is not equalStates to itself"))
     for (i, j) in [(0, 1), (1, 0), (1, 2), (0, 2)]:
-        if not E[(i, j)] and not (D[(i, j)] > 0.0):
+        if not E[(i, j)] and D[(i, j)] == 0.0:        # (a negative or NaN distance is the non-negativity law's business)
             if so2_seam_rounding(sp, tr[i], tr[j]):
                 if count:
                     count("oracle:positivity-skipped-so2-seam-rounding")
@@ -1077,7 +1102,7 @@ def run(ck):
     for name, sp, tr in corpus():
         jobs.append(([(sp, [tr])], "corpus"))
     r = ck.rng.fork("spaces")
-    nt_leaf, nt_cmp, n_cmp, nt_car = (72, 36, 120, 48) if quick else (300, 120, 600, 200)
+    nt_leaf, nt_cmp, n_cmp, nt_car = (60, 36, 110, 36) if quick else (300, 120, 600, 200)
     for i, sp in enumerate(shipped_spaces(r)):
         jobs.append(([(sp, make_triples(ck.rng.fork("leaf%d" % i), sp, nt_leaf, state))], "shipped"))
     batch = []
@@ -1153,15 +1178,21 @@ MANIFEST = {
     "category": "proof",
     "design_ref": "DESIGN.md 2.6",
     "text": "Lean 4 theorems over an executable, Num-generic model of distance / getMaximumExtent / equalStates / "
-            "satisfiesBounds of every shipped state space: all six metric laws over the reals for R^n, SO(2), time, discrete, "
-            "torus and (unclamped) SO(3); compound_metric by structural induction for arbitrarily nested weighted compounds; "
-            "kernel-checked counterexamples for the laws the unchanged code breaks (SO(3) clamp, Moebius, Klein bottle, sphere); "
-            "a claims table regenerated by running the code with a `decide`d coverage obligation. Tied to the C++ by bit-exact "
-            "lock-step runs of the real spaces against the compiled model, plus a six-law oracle on the implementation's own "
-            "distances over pairs and genuine triples.",
+            "satisfiesBounds / isMetricSpace of the shipped state spaces (R^n, SO(2), SO(3), SE(2), SE(3), time, discrete, "
+            "torus, Moebius, Klein bottle, sphere, wrapper, nested weighted compounds incl. zero weights, EmptyStateSpace, "
+            "SpaceTimeStateSpace, Projected/Atlas/TangentBundle (ambient distance), CForest wrapper): all six metric laws "
+            "over the reals for R^n, SO(2), time, discrete, torus, empty and the unclamped SO(3) distance; the sphere's real "
+            "haversine formula proved equal to r*angle(u,v) with its metric laws; the laws SpaceTime claims; "
+            "compound_metric by structural induction for arbitrarily nested weighted compounds and wrappers; kernel-checked "
+            "counterexamples for every law the code breaks while claiming it (SO(3) clamp, SO(3) non-unit in-bounds "
+            "quaternions, Moebius, Klein bottle, sphere poles/extent, unbounded time, zero weights); a claims table "
+            "regenerated on every run by running the code (31 space instances) with a `decide`d coverage obligation. Tied to "
+            "the C++ by bit-exact lock-step runs of the real classes against the compiled model, plus a six-law oracle on the "
+            "implementation's own distances over pairs and genuine triples (Dubins, Reeds-Shepp, Owen, Vana, VanaOwen: "
+            "oracle only).",
     "note": "Trusted: Lean kernel, the three standard axioms, the model outside the explored inputs, the harness, claims.py. "
-            "Theorems are over the reals (rounding executed and compared, not verified). Dubins / Reeds-Shepp: oracle on the "
-            "implementation only.",
-    "technique": "Lean 4 proof (real-number metric laws, structural induction over compound spaces, counterexample witnesses) "
-                 "+ bit-exact differential correspondence + generated claims obligation",
+            "Theorems are over the reals (rounding executed and compared, not verified). Dubins / Reeds-Shepp / Owen / Vana / "
+            "VanaOwen: oracle on the implementation only. Constrained spaces are exercised over a unit-sphere constraint.",
+    "technique": "Lean 4 proof (real-number metric laws, inner-product-space angles, structural induction over compound "
+                 "spaces, counterexample witnesses) + bit-exact differential correspondence + generated claims obligation",
 }
